@@ -873,6 +873,10 @@ func (e *connectWireError) MarshalJSON() ([]byte, error) {
 		}
 		wire.Details = details
 	}
+	// A message that isn't valid UTF-8 (it may quote the peer's malformed input)
+	// can't be a proto3 string: sending it with the offending bytes replaced
+	// beats not being able to send the error at all.
+	wire.Message = strings.ToValidUTF8(wire.Message, "\uFFFD")
 	return (&protoJSONCodec{}).Marshal(wire)
 }
 
